@@ -33,6 +33,36 @@ class Verdict(object):
         self.key = key                    # what makes the case distinct (default: the case)
 
 
+class StopShard(Exception):
+    """raised inside a shard to end it early (after repeated stalls); the results so far are kept"""
+
+
+class Stall(BaseException):
+    """raised by the per-case watchdog: the code under test did not return"""
+
+
+def _stall_handler(signum, frame):
+    raise Stall()
+
+
+class watchdog(object):
+    """`with watchdog(10): ...` -- raises Stall inside the block if it runs longer than `seconds` of real time.
+    Only for blocks whose normal cost is many orders of magnitude below the limit."""
+
+    def __init__(self, seconds):
+        self.seconds = seconds
+
+    def __enter__(self):
+        import signal
+        signal.signal(signal.SIGALRM, _stall_handler)
+        signal.setitimer(signal.ITIMER_REAL, self.seconds)
+
+    def __exit__(self, *exc):
+        import signal
+        signal.setitimer(signal.ITIMER_REAL, 0)
+        return False
+
+
 def h64(obj):
     if not isinstance(obj, (bytes, bytearray)):
         obj = json.dumps(obj, sort_keys=True, default=repr).encode()
@@ -73,6 +103,12 @@ class Ctx(object):
         self.evaluations += 1
         for lab in v.labels:
             self.labels[lab] += 1
+        if "stall" in v.labels:
+            for sig, msg in v.fails:
+                self.fail(case, sig, msg)
+            if self.labels["stall"] >= 2:
+                raise StopShard()          # every further case would cost the full watchdog again
+            return v
         if v.nontrivial:
             hv = h64(v.key if v.key is not None else case)
             if hv not in self.nt_hashes:
@@ -245,7 +281,10 @@ def _worker(args):
         boot.boot()
         mod = importlib.import_module(modname)
         ctx = Ctx(mod, tier, seed, idx, known_open)
-        mod.run(spec, ctx)
+        try:
+            mod.run(spec, ctx)
+        except StopShard:
+            ctx.notes["stopped_early_after_stalls"] = 1
         r = ctx.result()
         r["wall_s"] = time.time() - t0
         r["spec"] = spec
